@@ -1916,7 +1916,10 @@ func (g Gateway) Uint32SliceDelete(ctx context.Context, in *hydrapb.Uint32SliceD
 			// check the length of the slice in the treasure
 			// if the length is 0, we can delete the treasure
 			size, err := treasureObj.Uint32SliceSize()
-			if err != nil || size == 0 {
+			if err != nil {
+				// the key holds another content type: report the mismatch, never delete the treasure
+				errorsWhileDelete = append(errorsWhileDelete, err.Error())
+			} else if size == 0 {
 				deleteTreasure = true
 			}
 
